@@ -462,8 +462,185 @@ def random_pair(ctx, case_seed):
         sess.close()
 
 
+def store_changed_behind_the_cassette(ctx):
+    """A long lived cassette object replays an id, the stored recording is then replaced by someone else (another handle / process, a
+    restore that keeps size and timestamp), and the id is replayed again through the first object: every interception is answered from
+    THE recording - the one the store holds when play() fetches it - never from what an earlier fetch saw."""
+    import os
+    from playback.tape_recorder import TapeRecorder
+    for kind in ('file', 's3', 'memory'):
+        for keep_stamp in (True, False):
+            with open_box(kind) as box:
+                rec = TapeRecorder(box.cassette)
+                rec.enable_recording()
+                state = {'answer': 'answer-AAAA', 'bodies': 0}
+
+                class Svc(object):
+                    ask = rec.intercept_input('svc.ask')(lambda self, q: (state.__setitem__('bodies', state['bodies'] + 1), state['answer'])[1])
+                    tell = rec.intercept_output('svc.tell')(lambda self, v: (state.__setitem__('bodies', state['bodies'] + 1), 'told ' + v)[1])
+
+                    @rec.operation()
+                    def run(self):
+                        return self.tell(self.ask('q'))
+                Svc().run()
+                rid = box.cassette.get_last_recording_id() if hasattr(box.cassette, 'get_last_recording_id') else None
+                if rid is None:
+                    ids = list(box.cassette.iter_recording_ids('Svc'))
+                    rid = ids[-1]
+                rec.disable_recording()
+                state['bodies'] = 0
+                seen = []
+                play = lambda: rec.play(rid, lambda recording: seen.append(Svc().run()))   # noqa
+                play()
+                list(box.cassette.iter_recording_ids('Svc'))        # (a lookup reads the stored recordings as well)
+                # someone else replaces the stored recording: same id, same length, another answer
+                other = box.reader() if kind != 'memory' else box.cassette
+                if kind == 'file':
+                    path = [os.path.join(box.cassette.directory, n) for n in os.listdir(box.cassette.directory)][0]
+                    st = os.stat(path)
+                    with open(path, 'rb') as f:
+                        raw = f.read()
+                    assert raw.count(b'answer-AAAA') >= 1
+                    with open(path, 'wb') as f:
+                        f.write(raw.replace(b'answer-AAAA', b'answer-BBBB'))
+                    if keep_stamp:
+                        os.utime(path, ns=(st.st_atime_ns, st.st_mtime_ns))
+                elif kind == 's3':
+                    stored = other.get_recording(rid)
+                    for k in stored.get_all_keys():
+                        v = stored.get_data(k)
+                        if v == {'value': 'answer-AAAA'}:
+                            stored.set_data(k, {'value': 'answer-BBBB'})
+                        elif isinstance(v, dict) and v.get('value') == 'told answer-AAAA':
+                            stored.set_data(k, {'value': 'told answer-BBBB'})
+                    writer = box.fake.cassette('restore-tool', read_only=False)
+                    writer._save_recording(stored) if not hasattr(writer, 'save_recording') else writer.save_recording(stored)
+                else:
+                    stored = box.cassette.get_recording(rid)
+                    for k in stored.get_all_keys():
+                        v = stored.get_data(k)
+                        if v == {'value': 'answer-AAAA'}:
+                            stored.set_data(k, {'value': 'answer-BBBB'})
+                    box.cassette.save_recording(stored)
+                expected = other.get_recording(rid)
+                exp_in = [expected.get_data(k) for k in expected.get_all_keys() if k.startswith('input: svc.ask')][0]['value']
+                exp_res = [expected.get_data(k) for k in expected.get_all_keys() if k.startswith('output: svc.tell') and k.endswith('.result')][0]['value']
+                play()
+                w = {'store_changed_behind_the_cassette': True, 'cassette': kind, 'timestamp_and_size_kept': keep_stamp}
+                ctx.case(w)
+                ctx.count('replays')
+                ctx.count('replays_after_the_stored_recording_was_replaced')
+                if state['bodies']:
+                    ctx.violation('a wrapped body ran during replay', w)
+                if exp_in != 'answer-BBBB':
+                    ctx.count('replacement_not_effective')      # (harness could not replace the stored recording: nothing to judge)
+                    continue
+                if seen[-1] != exp_res:
+                    ctx.violation('replay answered an interception with a value that is not in the stored recording (got %r, the recording holds %r)' % (
+                        seen[-1], exp_res), w)
+
+
+def overlapping_output_calls(ctx):
+    """Two worker threads of the replayed operation send through ONE intercepted output; the second call enters while the data handler
+    of the first is still preparing its payload (entry order forced with events, so the invocation numbers are determined): each call
+    is answered with the result recorded for ITS invocation - the one under which its captured output is filed."""
+    import threading
+    from playback.tape_recorder import TapeRecorder
+    from playback.tape_cassettes.in_memory.in_memory_tape_cassette import InMemoryTapeCassette
+    from playback.interception.output_interception import OutputInterceptionDataHandler
+    for static in (False, True):
+        for enabled in (True, False):
+            for with_handler in (True, False):
+                rec = TapeRecorder(InMemoryTapeCassette())
+                rec.enable_recording()
+                hooks = {'prepare': None}
+                bodies = []
+
+                class Payload(OutputInterceptionDataHandler):
+                    def prepare_output_for_recording(self, interception_key, args, kwargs):
+                        if hooks['prepare'] is not None:
+                            hooks['prepare'](args[0])
+                        return {'payload': args[0]}
+
+                    def restore_output_from_recording(self, recorded_data):
+                        return recorded_data['payload']
+
+                def body(payload):
+                    bodies.append(payload)
+                    return 'receipt-%d-for-%s' % (len(bodies), payload)
+
+                class Mailer(object):
+                    if static:
+                        send = staticmethod(rec.static_intercept_output('mailer.send', data_handler=Payload() if with_handler else None)(body))
+                    else:
+                        send = rec.intercept_output('mailer.send', data_handler=Payload() if with_handler else None)(lambda self, payload: body(payload))
+
+                    def __init__(self):
+                        self.receipts = {}
+
+                    def _send(self, payload, wait_for=None):
+                        if wait_for is not None and not wait_for.wait(20):
+                            self.receipts['scheduling'] = 'broke'
+                            return
+                        self.receipts[payload] = self.send(payload)
+
+                    @rec.operation()
+                    def execute(self, sequential, second_may_start):
+                        first = threading.Thread(target=self._send, args=('alpha',))
+                        second = threading.Thread(target=self._send, args=('beta', second_may_start))
+                        first.start()
+                        if sequential:
+                            first.join()
+                        second.start()
+                        first.join()
+                        second.join()
+                        return dict(self.receipts)
+                go = threading.Event()
+                go.set()
+                expected = Mailer().execute(True, go)
+                rid = rec.tape_cassette.get_last_recording_id()
+                if not enabled:
+                    rec.disable_recording()
+                for overlapping in ((False, True, True, False) if with_handler else (False, False)):
+                    alpha_preparing, beta_entered = threading.Event(), threading.Event()
+
+                    def hook(payload):
+                        if payload == 'alpha':
+                            alpha_preparing.set()
+                            if overlapping:
+                                beta_entered.wait(20)      # alpha's handler is still busy when beta enters the same output
+                        else:
+                            beta_entered.set()
+                    hooks['prepare'] = hook
+                    got = {}
+                    n0 = len(bodies)
+                    try:
+                        pb = rec.play(rid, lambda recording: got.update(Mailer().execute(not overlapping, alpha_preparing if with_handler else go)))
+                    finally:
+                        hooks['prepare'] = None
+                    w = {'overlapping_output_calls': True, 'static': static, 'recording_enabled': enabled, 'overlapping': overlapping, 'handler': with_handler}
+                    ctx.case(w)
+                    ctx.count('replays')
+                    ctx.count('replays_with_overlapping_calls_of_one_output' if overlapping else 'replays_with_two_sending_threads')
+                    if 'scheduling' in got:
+                        ctx.count('harness_scheduling_broke')
+                        continue
+                    if len(bodies) != n0:
+                        ctx.violation('a wrapped output body ran during replay', w)
+                    if got != expected:
+                        ctx.violation('overlapping calls of one intercepted output were answered with results recorded for other invocations: %r instead of %r' % (
+                            got, expected), w)
+                    if with_handler:
+                        sent = sorted((o.key, o.value['payload']) for o in pb.playback_outputs if 'mailer.send' in o.key)
+                        if sent != [('output: mailer.send #1.output', 'alpha'), ('output: mailer.send #2.output', 'beta')]:
+                            ctx.violation('captured outputs of the replay are filed under other invocation numbers than the calls were made in: %r' % (sent,), w)
+
+
 def run(ctx):
     lattice(ctx)
+    if ctx.shard == 0:
+        overlapping_output_calls(ctx)
+        store_changed_behind_the_cassette(ctx)
     n = ctx.budget(200, 10000)
     base = ctx.seed * 1000003 + ctx.shard * 1000000
     for i in range(n):
@@ -477,6 +654,10 @@ def run(ctx):
 
 
 def replay(ctx, w):
+    if w.get('overlapping_output_calls'):
+        return overlapping_output_calls(ctx)
+    if w.get('store_changed_behind_the_cassette'):
+        return store_changed_behind_the_cassette(ctx)
     if 'case_seed' in w:
         random_pair(ctx, w['case_seed'])
     else:
